@@ -222,6 +222,13 @@ Definition flag_flagged := S_ "\Flagged".
 Definition flag_recent := S_ "\Recent".
 Definition flag_seen := S_ "\Seen".
 
+(** message.hasFlag (fix 378938d): the flag string is split with strings.Fields
+    and whole flags are compared.  [flag_eqb] is the comparison [f == flag] of
+    that loop — ONE definition, to be switched (e.g. to [equal_fold]) when the
+    code's comparison changes. *)
+Definition flag_eqb (f flag : str) : bool := str_eqb f flag.
+Definition has_flag_go (flags flag : str) : bool := existsb (fun f => flag_eqb f flag) (fields flags).
+
 (** [if !c { return false }; i++; continue] *)
 Definition andk (c : bool) (k : option bool) : option bool := if c then k else Some false.
 (** NOT: [if evaluateTokens(next) { return false }] *)
@@ -251,19 +258,19 @@ Fixpoint eval_loop (tokens : list str) {struct tokens} : option bool :=
       else
         match kw_of token with
         | Some KwALL => eval_loop rest
-        | Some KwANSWERED => andk (contains (m_flags m) flag_answered) (eval_loop rest)
-        | Some KwDELETED => andk (contains (m_flags m) flag_deleted) (eval_loop rest)
-        | Some KwDRAFT => andk (contains (m_flags m) flag_draft) (eval_loop rest)
-        | Some KwFLAGGED => andk (contains (m_flags m) flag_flagged) (eval_loop rest)
-        | Some KwNEW => andk (contains (m_flags m) flag_recent && negb (contains (m_flags m) flag_seen)) (eval_loop rest)
-        | Some KwOLD => andk (negb (contains (m_flags m) flag_recent)) (eval_loop rest)
-        | Some KwRECENT => andk (contains (m_flags m) flag_recent) (eval_loop rest)
-        | Some KwSEEN => andk (contains (m_flags m) flag_seen) (eval_loop rest)
-        | Some KwUNANSWERED => andk (negb (contains (m_flags m) flag_answered)) (eval_loop rest)
-        | Some KwUNDELETED => andk (negb (contains (m_flags m) flag_deleted)) (eval_loop rest)
-        | Some KwUNDRAFT => andk (negb (contains (m_flags m) flag_draft)) (eval_loop rest)
-        | Some KwUNFLAGGED => andk (negb (contains (m_flags m) flag_flagged)) (eval_loop rest)
-        | Some KwUNSEEN => andk (negb (contains (m_flags m) flag_seen)) (eval_loop rest)
+        | Some KwANSWERED => andk (has_flag_go (m_flags m) flag_answered) (eval_loop rest)
+        | Some KwDELETED => andk (has_flag_go (m_flags m) flag_deleted) (eval_loop rest)
+        | Some KwDRAFT => andk (has_flag_go (m_flags m) flag_draft) (eval_loop rest)
+        | Some KwFLAGGED => andk (has_flag_go (m_flags m) flag_flagged) (eval_loop rest)
+        | Some KwNEW => andk (has_flag_go (m_flags m) flag_recent && negb (has_flag_go (m_flags m) flag_seen)) (eval_loop rest)
+        | Some KwOLD => andk (negb (has_flag_go (m_flags m) flag_recent)) (eval_loop rest)
+        | Some KwRECENT => andk (has_flag_go (m_flags m) flag_recent) (eval_loop rest)
+        | Some KwSEEN => andk (has_flag_go (m_flags m) flag_seen) (eval_loop rest)
+        | Some KwUNANSWERED => andk (negb (has_flag_go (m_flags m) flag_answered)) (eval_loop rest)
+        | Some KwUNDELETED => andk (negb (has_flag_go (m_flags m) flag_deleted)) (eval_loop rest)
+        | Some KwUNDRAFT => andk (negb (has_flag_go (m_flags m) flag_draft)) (eval_loop rest)
+        | Some KwUNFLAGGED => andk (negb (has_flag_go (m_flags m) flag_flagged)) (eval_loop rest)
+        | Some KwUNSEEN => andk (negb (has_flag_go (m_flags m) flag_seen)) (eval_loop rest)
         | Some KwNOT =>
             match rest with
             | [] => Some false                                  (* i+1 >= len(tokens) *)
@@ -320,12 +327,12 @@ Fixpoint eval_loop (tokens : list str) {struct tokens} : option bool :=
         | Some KwKEYWORD =>
             match rest with
             | [] => Some false
-            | a :: rest1 => andk (contains (m_flags m) (unquote a)) (eval_loop rest1)
+            | a :: rest1 => andk (has_flag_go (m_flags m) (unquote a)) (eval_loop rest1)
             end
         | Some KwUNKEYWORD =>
             match rest with
             | [] => Some false
-            | a :: rest1 => andk (negb (contains (m_flags m) (unquote a))) (eval_loop rest1)
+            | a :: rest1 => andk (negb (has_flag_go (m_flags m) (unquote a))) (eval_loop rest1)
             end
         | Some KwLARGER =>
             match rest with
